@@ -123,7 +123,7 @@ def _which_epoch(states, snap):
     """Which epochs' saved states a loaded snapshot equals (model part, optimizer part)."""
     me = [j for j, b in sorted(states.items()) if b["tag"] == snap["tag"] and b["w"] == snap["w"]]
     oe = [j for j, b in sorted(states.items()) if b["buf"] == snap["buf"] and b["lrs"] == snap["lrs"]]
-    return (me[0] if me else None), (oe[0] if oe else None)
+    return me, oe
 
 
 def _recover_and_verify(cfg, root, base, e, states, salt=1):
@@ -164,7 +164,7 @@ def _recover_and_verify(cfg, root, base, e, states, salt=1):
         if snap != states[L]:
             me, oe = _which_epoch(states, snap)
             raise _Fail("load_last", "state loaded for the last recorded epoch is not the state saved for it", snap,
-                        states[L], recorded_last=L, loaded_model_epoch=me, loaded_optim_epoch=oe)
+                        states[L], recorded_last=L, loaded_model_epochs=me, loaded_optim_epochs=oe)
     # --- best epoch: model alone, and model + optimizer
     b = ctl.get_best_epoch()
     exp_b = T.best_epoch(cfg["val"][:L])
@@ -235,20 +235,25 @@ def _crash_point(cfg, root, base, e, k, when):
     if inj.events != base[e - 1]["events"][: k + 1]:
         raise RuntimeError("harness: event sequence not reproducible: %r vs %r" % (inj.events, base[e - 1]["events"]))
     states[e] = T.snapshot(s.model, s.opt)   # what the dying update was about to save / had saved
+    known = set()
+    for j in range(1, e + 1):
+        known |= set(T.ckpt_names(cfg, j))
+    left = s.files()
+    stray = any(f not in known for f in left)   # reported in the evidence, not judged
     del s
     done = inj.events[: k + (1 if when == "after" else 0)]
     try:
         _recover_and_verify(cfg, root, base, e, states)
     except _Fail as f:
         rec = dict(f.rec, epoch=e, k=k, when=when, done=["%s:%s" % tuple(x) for x in done])
-        return rec
-    return None
+        return rec, stray
+    return None, stray
 
 
 def _enumerate(cfg, second=None):
     """All crash points of all updates of one history. Returns (failures, stats)."""
     failures = []
-    points = interior_with_delete = 0
+    points = interior_with_delete = strays = 0
     with T.scratch() as root, T.quiet():
         u = os.path.join(root, "u")
         os.mkdir(u)
@@ -265,8 +270,9 @@ def _enumerate(cfg, second=None):
                     d = os.path.join(root, "c%d" % idx)
                     os.mkdir(d)
                     with T.in_dir(d):
-                        f = _crash_point(cfg, ".", base, e, k, when)
+                        f, stray = _crash_point(cfg, ".", base, e, k, when)
                     points += 1
+                    strays += stray
                     # strictly between the first and the last mutating call
                     inside = (k > 0 or when == "after") and (k < K - 1 or when == "before")
                     if inside and deletes:
@@ -274,12 +280,14 @@ def _enumerate(cfg, second=None):
                     if f is not None:
                         failures.append(f)
                     shutil.rmtree(d, ignore_errors=True)
-    return failures, {"points": points, "interior_with_delete": interior_with_delete, "epochs": len(base), "base": base}
+    return failures, {"points": points, "interior_with_delete": interior_with_delete, "epochs": len(base), "base": base,
+                      "strays": strays}
 
 
 def _verdict(cfg, failures, stats):
     classes = ["fmt_" + cfg["fmt"], "keep_last_and_best" if cfg["keep"] else "keep_everything"]
     classes += ["crash_points_x10"] * (stats["points"] // 10)
+    classes += ["crash_left_temporary_file_x10"] * (stats["strays"] // 10)   # observed, not judged
     base = stats["base"]
     kinds = set()
     for r in base:
@@ -298,8 +306,8 @@ def _verdict(cfg, failures, stats):
     classes += sorted(kinds)
     if failures:
         f0 = failures[0]
-        compact = [{k: f.get(k) for k in ("epoch", "k", "when", "stage", "done", "recorded_last", "loaded_model_epoch",
-                                          "loaded_optim_epoch", "exc", "what")} for f in failures]
+        compact = [{k: f.get(k) for k in ("epoch", "k", "when", "stage", "done", "recorded_last", "loaded_model_epochs",
+                                          "loaded_optim_epochs", "exc", "what")} for f in failures]
         raise Violation(
             "crash %s event %d (%s) of the update of epoch %d -> %s: %s" % (
                 f0["when"], f0["k"], base[f0["epoch"] - 1]["events"][f0["k"]], f0["epoch"], f0["stage"], f0["what"]),
@@ -329,13 +337,13 @@ def _keep_all_strategy(tier):
     return _hist_strategy(5 if tier == "quick" else 6, False, EPOCH_FMTS)
 
 
-subcheck("C16", "crash_keep_last_and_best", _keep_best_strategy, quick=40, thorough=1500,
+subcheck("C16", "crash_keep_last_and_best", _keep_best_strategy, quick=36, thorough=800,
          doc="generated history (<= 5|6 epochs, parameters as C15, formats with the epoch field, keep_last_and_best_only); "
              "EVERY mutating call of EVERY update is a crash point (before and after): prefix history, last and best "
              "load the saved states, continuing gives the uninterrupted CSV and final state",
          required_classes=["interior_crash_with_delete", "history_file_created"], timeout_s=6000)(_crash_check)
 
-subcheck("C16", "crash_keep_everything", _keep_all_strategy, quick=40, thorough=1500,
+subcheck("C16", "crash_keep_everything", _keep_all_strategy, quick=36, thorough=800,
          doc="the same with keep_last_and_best_only=False: additionally every recorded epoch loads after the continued run",
          required_classes=["history_file_created"], timeout_s=6000)(_crash_check)
 
@@ -358,7 +366,7 @@ def _noepoch_strategy(tier):
     return _noepoch_case(tier)
 
 
-subcheck("C16", "crash_no_epoch_field", _noepoch_strategy, quick=25, thorough=600,
+subcheck("C16", "crash_no_epoch_field", _noepoch_strategy, quick=25, thorough=400,
          doc="formats without the epoch field (model.pt / optim.pt), keep_last_and_best_only, strictly improving metric: "
              "every crash point as above (every history meets known finding KF-C16-1; the matcher accepts a history only "
              "if ALL its failing crash points have that shape, so the other points are still judged)",
@@ -400,7 +408,7 @@ def _double_strategy(tier):
     return _double_case(tier)
 
 
-@subcheck("C16", "crash_twice", _double_strategy, quick=400, thorough=12000,
+@subcheck("C16", "crash_twice", _double_strategy, quick=400, thorough=8000,
           doc="fault sequences: generated history, a generated crash point, recovery, then a second generated crash point in "
               "the continued run (often inside the repeated update, which now meets the files the first crash left); "
               "after the second crash the same oracle as for a single crash",
@@ -496,7 +504,7 @@ def _dir_strategy(tier):
     return _dir_case(tier)
 
 
-@subcheck("C16", "crashfree_directory", _dir_strategy, quick=300, thorough=6000,
+@subcheck("C16", "crashfree_directory", _dir_strategy, quick=300, thorough=4000,
           doc="crash-free runs (<= 8|12 epochs, all formats, both keep modes): after every completed update the state "
               "directory holds exactly the files of the last and the best epoch (keep mode) / every recorded epoch loads; "
               "each kept file holds the state saved for its epoch; without the epoch field a non-improving epoch is refused "
@@ -565,6 +573,10 @@ def _m_noepoch(case, v):
             if not (e == 1 and f["exc"] == "FileNotFoundError"):
                 return False
         else:
-            if f.get("loaded_optim_epoch") != e - 1 or f.get("loaded_model_epoch") not in (e - 1, e):
+            # the optimizer file is still the previous epoch's; the model file is the previous epoch's or,
+            # when only the first rename happened, already the new one
+            if (e - 1) not in (f.get("loaded_optim_epochs") or []):
+                return False
+            if not ({e - 1, e} & set(f.get("loaded_model_epochs") or [])):
                 return False
     return True
